@@ -81,15 +81,26 @@ def ItemInDomain (opt : POpt) : Item → Prop
   | .rep .. => False
   | .range .. => False
 
-/-- the round trip for one argument list -/
+/-- the round trip for one argument list.  The last two clauses: both the scanned and the original
+    list denote a value list (`expandList … = some vs`: no clause is satisfied by two undefined
+    expansions), and it is the same one. -/
 def RoundTrips (opt : POpt) (items : List Item) : Prop :=
-  ∃ (st : PSt) (ret : Nat) (items' : List Item),
+  ∃ (st : PSt) (ret : Nat) (items' : List Item) (vs : List Val),
     printArgVals opt (flatList items) ⟨[], 0⟩ = .ok (st, ret) ∧            -- the printer succeeds,
     ret = st.out.length ∧                                                   -- returns the text's length,
     countPrintedArgVals st.out = .ok ((flatList items').length : Int) ∧     -- the checker counts the cells
     scanArgVals st.out (flatList items').length =                           -- the scanner then writes,
       .ok (st.out.length, flatList items') ∧                                -- the whole text is consumed,
-    expandList items' = expandList items                                    -- and the values are the originals
+    expandList items' = some vs ∧ expandList items = some vs                -- and the values are the originals
+
+/-- the round trip for a whole message: address plus argument list -/
+def MsgRoundTrips (opt : POpt) (addr : Bytes) (adrsize : Nat) (items : List Item) : Prop :=
+  ∃ (st : PSt) (ret : Nat) (items' : List Item) (vs : List Val),
+    printMessage opt addr (flatList items) 0 = .ok (st, ret) ∧
+    ret = st.out.length ∧
+    countPrintedArgValsOfMsg st.out = .ok ((flatList items').length : Int) ∧
+    scanMessage st.out adrsize (flatList items').length = .ok (st.out.length, addr, flatList items') ∧
+    expandList items' = some vs ∧ expandList items = some vs
 
 /-- **C10, full statement** (arguments; the message form adds the address). NOT proved in full:
     see `print_scan_roundtrip_partial` for the proved part. -/
@@ -149,6 +160,32 @@ theorem list_roundtrip (opt : POpt) (args : List Cell) (hv : ∀ c ∈ args, Sim
       scanArgVals st.out args.length = .ok (st.out.length, args) :=
   list_roundtrip_of_tokens opt args (fun c hc => (hv c hc).token)
     (noConversion opt args (fun c hc => (hv c hc).token.1) hr)
+
+/-- the printer leaves the list as it is: `rtosc_convert_to_range` finds no run at any position
+    (the exact condition; `opt.compress = false ∨ NoLongRun args` above is a sufficient one that only
+    looks at the types) -/
+def NotCompressed (opt : POpt) (args : List Cell) : Prop :=
+  ∀ i, i < args.length → convertToRange opt (args.drop i) (args.length - i) = .ok none
+
+/-- **list_roundtrip_uncompressed** (tier 2): as `list_roundtrip`, for every list the printer does
+    not compress — `1 7 3 9 2` with compression on included. -/
+theorem list_roundtrip_uncompressed (opt : POpt) (args : List Cell) (hv : ∀ c ∈ args, SimpleVal opt c)
+    (hr : NotCompressed opt args) :
+    ∃ (st : PSt) (ret : Nat),
+      printArgVals opt args ⟨[], 0⟩ = .ok (st, ret) ∧ ret = st.out.length ∧
+      countPrintedArgVals st.out = .ok (args.length : Int) ∧
+      scanArgVals st.out args.length = .ok (st.out.length, args) :=
+  list_roundtrip_of_tokens opt args (fun c hc => (hv c hc).token) hr
+
+/-- **message_roundtrip_uncompressed** (tier 2): the message form of `list_roundtrip_uncompressed`. -/
+theorem message_roundtrip_uncompressed (opt : POpt) (addr : Bytes) (args : List Cell) (adrsize : Nat)
+    (ha : AddrOK addr) (hal : addr.length < adrsize) (hv : ∀ c ∈ args, SimpleVal opt c)
+    (hr : NotCompressed opt args) :
+    ∃ (st : PSt) (ret : Nat),
+      printMessage opt addr args 0 = .ok (st, ret) ∧ ret = st.out.length ∧
+      countPrintedArgValsOfMsg st.out = .ok (args.length : Int) ∧
+      scanMessage st.out adrsize args.length = .ok (st.out.length, addr, args) :=
+  message_roundtrip_of_tokens opt addr args adrsize ha hal (fun c hc => (hv c hc).token) hr
 
 /-- **message_roundtrip** (tier 2, "the same holds for whole messages"): address plus arguments. -/
 theorem message_roundtrip (opt : POpt) (addr : Bytes) (args : List Cell) (adrsize : Nat)
@@ -254,6 +291,55 @@ theorem flatList_vals (cs : List Cell) : flatList (cs.map Item.val) = cs := by
   | nil => simp [flatList]
   | cons c r ih => simp [flatList, Item.flat, ih]
 
+theorem expandList_vals (cs : List Cell) (h : ∀ c ∈ cs, c.isScalar = true) :
+    expandList (cs.map Item.val) = some (cs.map Val.sc) := by
+  induction cs with
+  | nil => simp [expandList]
+  | cons c r ih =>
+    simp only [List.map_cons, expandList, Item.expand, h c (by simp), ↓reduceIte,
+      ih (fun x hx => h x (by simp [hx]))]
+    rfl
+
+/-- a scalar of the property's domain is a scalar cell -/
+theorem isScalar_of_domain (opt : POpt) (c : Cell) (h : ScalarInDomain opt c) : c.isScalar = true := by
+  cases c <;> first | rfl | exact absurd h (by simp [ScalarInDomain])
+
+/-- the elements of an array of the domain are plain scalar values -/
+theorem arr_elems_of_domain (opt : POpt) (ety : UInt8) (es : List Item) (hd : ItemInDomain opt (.arr ety es)) :
+    ∃ cs : List Cell, es = cs.map Item.val ∧ ∀ c ∈ cs, ScalarInDomain opt c ∧ typesMatch c.type ety = true := by
+  obtain ⟨_, hel, _⟩ := hd
+  clear * - hel
+  induction es with
+  | nil => exact ⟨[], rfl, by simp⟩
+  | cons e r ih =>
+    obtain ⟨c, hc', hdom, hty⟩ := hel e (by simp)
+    obtain ⟨cs, hcs, hall⟩ := ih (fun e' he' => hel e' (by simp [he']))
+    refine ⟨c :: cs, by simp [hc', hcs], ?_⟩
+    intro x hx
+    rcases List.mem_cons.mp hx with rfl | hx
+    · exact ⟨hdom, hty⟩
+    · exact hall x hx
+
+/-- every argument list of the property's domain denotes a value list -/
+theorem expandList_of_domain (opt : POpt) (items : List Item) (hd : ∀ x ∈ items, ItemInDomain opt x) :
+    ∃ vs, expandList items = some vs := by
+  induction items with
+  | nil => exact ⟨[], by simp [expandList]⟩
+  | cons x xs ih =>
+    obtain ⟨vs, hvs⟩ := ih (fun y hy => hd y (by simp [hy]))
+    have hx := hd x (by simp)
+    have hexp : ∃ a, x.expand = some a := by
+      cases x with
+      | val c => exact ⟨[.sc c], by simp [Item.expand, isScalar_of_domain opt c hx]⟩
+      | arr ety es =>
+        obtain ⟨cs, rfl, hall⟩ := arr_elems_of_domain opt ety es hx
+        refine ⟨[.arr ety (cs.map Val.sc)], ?_⟩
+        simp [Item.expand, expandList_vals cs (fun c hc => isScalar_of_domain opt c (hall c hc).1)]
+      | rep n y => exact absurd hx (by simp [ItemInDomain])
+      | range n d st => exact absurd hx (by simp [ItemInDomain])
+    obtain ⟨a, ha⟩ := hexp
+    exact ⟨a ++ vs, by simp [expandList, ha, hvs]⟩
+
 /-- a time tag at midnight without fraction: printed as a bare date, which is only unambiguous at
     the end of a text (a following ` 12:34` would be read as its clock time) -/
 def MidnightTime : Cell → Prop
@@ -320,7 +406,8 @@ theorem print_scan_roundtrip_partial (opt : POpt) (hopt : OptOK opt) (cs : List 
     (hr : opt.compress = false ∨ NoLongRun cs) : RoundTrips opt (cs.map Item.val) := by
   obtain ⟨st, ret, h1, h2, h3, h4⟩ :=
     list_roundtrip opt cs (fun c hc => simpleVal_of_domain opt hopt c (hv c hc).1 (hv c hc).2) hr
-  refine ⟨st, ret, cs.map Item.val, ?_, h2, ?_, ?_, rfl⟩
+  have hexp := expandList_vals cs (fun c hc => isScalar_of_domain opt c (hv c hc).1)
+  refine ⟨st, ret, cs.map Item.val, cs.map Val.sc, ?_, h2, ?_, ?_, hexp, hexp⟩
   · rw [flatList_vals]; exact h1
   · rw [flatList_vals]; exact h3
   · rw [flatList_vals]; exact h4
@@ -408,7 +495,31 @@ theorem print_scan_roundtrip_nocompress (opt : POpt) (hopt : OptOK opt) (hc : op
       intro cs hcs
       obtain ⟨x, _, rfl⟩ := List.mem_map.mp hcs
       cases x <;> simp [Item.flat]))
-  refine ⟨st, ret, items, ?_, h2, ?_, ?_, rfl⟩
+  obtain ⟨vs, hvs⟩ := expandList_of_domain opt items (fun x hx => (hd x hx).1)
+  refine ⟨st, ret, items, vs, ?_, h2, ?_, ?_, hvs, hvs⟩
+  · rw [hflat]; exact h1
+  · rw [hflat]; exact h3
+  · rw [hflat]; exact h4
+
+/-- **message_roundtrip_nocompress** (tier 3, partial, "the same holds for whole messages"): with
+    range compression switched off, address plus any argument list of the property's domain
+    (scalars and arrays of scalars; midnight time tags excluded). -/
+theorem message_roundtrip_nocompress (opt : POpt) (hopt : OptOK opt) (hc : opt.compress = false)
+    (addr : Bytes) (adrsize : Nat) (ha : AddrOK addr) (hal : addr.length < adrsize)
+    (items : List Item) (hd : ∀ x ∈ items, ItemInDomain opt x ∧ ItemNoMidnight x) :
+    MsgRoundTrips opt addr adrsize items := by
+  have hflat := flatList_eq_flatten items
+  obtain ⟨st, ret, h1, h2, h3, h4⟩ := message_roundtrip_goodArgs opt addr (items.map Item.flat) adrsize ha hal
+    (by
+      intro cs hcs
+      obtain ⟨x, hx, rfl⟩ := List.mem_map.mp hcs
+      exact goodArg_of_domain opt hopt hc x (hd x hx).1 (hd x hx).2)
+    (noConversion_args_nocompress opt hc _ (by
+      intro cs hcs
+      obtain ⟨x, _, rfl⟩ := List.mem_map.mp hcs
+      cases x <;> simp [Item.flat]))
+  obtain ⟨vs, hvs⟩ := expandList_of_domain opt items (fun x hx => (hd x hx).1)
+  refine ⟨st, ret, items, vs, ?_, h2, ?_, ?_, hvs, hvs⟩
   · rw [hflat]; exact h1
   · rw [hflat]; exact h3
   · rw [hflat]; exact h4
@@ -487,14 +598,14 @@ theorem range_roundtrip_const (opt : POpt) (hopt : OptOK opt) (hc : opt.compress
   have hs := (simpleVal_of_domain opt hopt c hd hm).token
   obtain ⟨st, ret, h1, h2, h3, h4⟩ :=
     const_run_roundtrip opt hc c hs.1 hs.2 (selfIdentical_of_domain opt c hd) n hn5 hn
-  refine ⟨st, ret, [Item.rep n (Item.val c)], ?_, h2, ?_, ?_, ?_⟩
+  refine ⟨st, ret, [Item.rep n (Item.val c)], List.replicate n (Val.sc c), ?_, h2, ?_, ?_,
+    expandList_rep c hs.1 n (by omega), expandList_replicate_val c hs.1 n⟩
   · have : flatList (List.replicate n (Item.val c)) = List.replicate n c := by
       have := flatList_vals (List.replicate n c)
       simpa using this
     rw [this]; exact h1
   · rw [flatList_rep_val]; simpa using h3
   · rw [flatList_rep_val]; simpa using h4
-  · rw [expandList_rep c hs.1 n (by omega), expandList_replicate_val c hs.1 n]
 
 
 
@@ -536,15 +647,6 @@ theorem rangeVals_int (d a : Int) : ∀ (m i : Nat),
 /-- the arithmetic run `a, a+d, …` of `n` int32 values as an argument list -/
 def arithItems (a d : Int) (n : Nat) : List Item := (arithRun a d n).map Item.val
 
-theorem expandList_vals (cs : List Cell) (h : ∀ c ∈ cs, c.isScalar = true) :
-    expandList (cs.map Item.val) = some (cs.map Val.sc) := by
-  induction cs with
-  | nil => simp [expandList]
-  | cons c r ih =>
-    simp only [List.map_cons, expandList, Item.expand, h c (by simp), ↓reduceIte,
-      ih (fun x hx => h x (by simp [hx]))]
-    rfl
-
 theorem expandList_arithItems (a d : Int) (n : Nat) :
     expandList (arithItems a d n) =
       some ((List.range n).map (fun (k : Nat) => Val.sc (Cell.int .i (a + (k : Int) * d)))) := by
@@ -570,13 +672,14 @@ theorem range_roundtrip_int (opt : POpt) (hc : opt.compress = true) (a d : Int) 
   by_cases hu : d = 1 ∨ d = -1
   · -- `a ... z`
     rw [if_pos hu] at hcells
-    refine ⟨st, ret, [Item.range n (Cell.int .i d) (Cell.int .i a)], ?_, h2, ?_, ?_, ?_⟩
+    refine ⟨st, ret, [Item.range n (Cell.int .i d) (Cell.int .i a)],
+      (List.range n).map (fun (k : Nat) => Val.sc (Cell.int .i (a + (k : Int) * d))), ?_, h2, ?_, ?_, ?_,
+      expandList_arithItems a d n⟩
     · rw [hflat]; exact h1
     · simpa [flatList, Item.flat, hcells] using h3
     · have : flatList [Item.range n (Cell.int .i d) (Cell.int .i a)] = cells := by simp [flatList, Item.flat, hcells]
       rw [this]; exact h4
-    · rw [expandList_arithItems]
-      simp only [expandList, Item.expand, ArgVal.Cell.isScalar, and_self, show 1 ≤ n from by omega, ↓reduceIte]
+    · simp only [expandList, Item.expand, ArgVal.Cell.isScalar, and_self, show 1 ≤ n from by omega, ↓reduceIte]
       rw [rangeVals_int d a n 0 (by
         intro k _ hk
         exact ⟨hmul k (by omega), hrange k (by omega)⟩)]
@@ -584,14 +687,15 @@ theorem range_roundtrip_int (opt : POpt) (hc : opt.compress = true) (a d : Int) 
   · -- `a b ... z`
     rw [if_neg hu] at hcells
     have hn1 : ((n - 1 : Nat) : Int) = (n : Int) - 1 := by omega
-    refine ⟨st, ret, [Item.val (Cell.int .i a), Item.range (n - 1) (Cell.int .i d) (Cell.int .i (a + d))], ?_, h2, ?_, ?_, ?_⟩
+    refine ⟨st, ret, [Item.val (Cell.int .i a), Item.range (n - 1) (Cell.int .i d) (Cell.int .i (a + d))],
+      (List.range n).map (fun (k : Nat) => Val.sc (Cell.int .i (a + (k : Int) * d))), ?_, h2, ?_, ?_, ?_,
+      expandList_arithItems a d n⟩
     · rw [hflat]; exact h1
     · simpa [flatList, Item.flat, hcells, hn1] using h3
     · have : flatList [Item.val (Cell.int .i a), Item.range (n - 1) (Cell.int .i d) (Cell.int .i (a + d))] = cells := by
         simp [flatList, Item.flat, hcells, hn1]
       rw [this]; exact h4
-    · rw [expandList_arithItems]
-      simp only [expandList, Item.expand, ArgVal.Cell.isScalar, and_self, show 1 ≤ n - 1 from by omega, ↓reduceIte]
+    · simp only [expandList, Item.expand, ArgVal.Cell.isScalar, and_self, show 1 ≤ n - 1 from by omega, ↓reduceIte]
       rw [rangeVals_int d (a + d) (n - 1) 0 (by
         intro k _ hk
         refine ⟨hmul k (by omega), ?_⟩
@@ -627,16 +731,21 @@ theorem scanfFmtstr_order (s : Bytes) :
     scanfFmtstr s = modelTryOrder.find? (fun nf => scanRd nf.tryDirs s = numWordLen s) := rfl
 
 /-- **tables_agree**: the model is written over the constants the source has today: compression
-    threshold, default print options, both escape tables, the try-order of the numeric formats
-    and the reserved words (regenerated from src/cpp/pretty-format.c on every run). -/
+    threshold, both escape tables (`case` labels and `default:` branch), the try-order of the
+    numeric formats and the set of reserved words (regenerated from src/cpp/pretty-format.c on
+    every run; `translatorOK` is false when the tables could not be read).  The default print
+    options are not compared: the property quantifies over the options. -/
 theorem tables_agree :
+    Generated.translatorOK = true ∧
     rangeMin = Generated.rangeMin ∧
-    (defaultOpt.lossless, defaultOpt.prec, defaultOpt.linelength, defaultOpt.compress) = Generated.defaultOpt ∧
     (∀ p ∈ Generated.escapeTable, asEscapedChar p.1 true = some p.2 ∧ asEscapedChar p.1 false = some p.2) ∧
+    (∀ p ∈ Generated.escapeDefault, asEscapedChar p.2.1 p.1 = some p.2.2) ∧
     (∀ p ∈ Generated.unescapeTable, getEscapedChar p.1 true = p.2 ∧ getEscapedChar p.1 false = p.2) ∧
+    (∀ p ∈ Generated.unescapeDefault, getEscapedChar p.2.1 p.1 = p.2.2) ∧
     modelTryOrder.map (fun nf => (nf.name, nf.type)) = Generated.tryOrder ∧
-    reservedWords = Generated.reservedWords.map lit := by
-  refine ⟨by decide, by decide, by decide, by decide, by decide, by decide +kernel⟩
+    (reservedWords.all (fun w => (Generated.reservedWords.map lit).contains w) &&
+      (Generated.reservedWords.map lit).all (fun w => reservedWords.contains w)) = true := by
+  refine ⟨by decide, by decide, by decide, by decide, by decide, by decide, by decide, by decide +kernel⟩
 
 /-- **escape_tables_inverse**: `get_escaped_char` undoes `as_escaped_char` -/
 theorem escape_tables_inverse : ∀ p ∈ Generated.escapeTable, (p.2, p.1) ∈ Generated.unescapeTable := by
@@ -681,6 +790,26 @@ example : (printArgVals exOpt exArgs ⟨[], 0⟩).map (fun r => (r.1.out, r.2)) 
     .ok (lit ("127 -1 -5000000000h\n    '\\n' \"a \\\"long\"\\\n    \"\\\" string\\n\"\\\n    \", broken\" \"tr\"\\\n    \"ue\"S BLOB [3\n" ++
               "    0x01 0x02\n    0xff] true\n    immediately\n    MIDI [0x01 0x02 0x03 0x04]\n    #deadbeef\n" ++
               "    1.50 (0x1.8p+0)\n    0.50d (0x1p-1)\n    2017-11-04 23:34"), 248) := by
+  decide +kernel
+
+/-- five integers in a row with compression on, which are no run: outside `NoLongRun`, inside
+    `NotCompressed` -/
+example : NotCompressed ⟨true, 2, 80, true⟩ [.int .i 1, .int .i 7, .int .i 3, .int .i 9, .int .i 2] ∧
+    ¬ NoLongRun [.int .i 1, .int .i 7, .int .i 3, .int .i 9, .int .i 2] := by
+  constructor
+  · have h : ∀ i : Fin 5, convertToRange ⟨true, 2, 80, true⟩
+        (([.int .i 1, .int .i 7, .int .i 3, .int .i 9, .int .i 2] : List Cell).drop i.val) (5 - i.val) = .ok none := by
+      decide +kernel
+    intro i hi
+    exact h ⟨i, hi⟩
+  · intro h
+    have := h 0 (by decide)
+    revert this
+    decide
+
+/-- an address with characters outside the usual path alphabet is an address of the domain -/
+example : AddrOK (lit "/mixer/ch:3/gain+1") := by
+  refine ⟨by decide, ?_⟩
   decide +kernel
 
 /-- the defect classes of the unchanged code, as they would appear in the model: with the fixes
